@@ -111,6 +111,7 @@ class Shapes(Sub):
     """every month shape x weekday x n, Date and UTC DateTime"""
     name = "month_shapes"
     kind = "enum"
+    case_timeout = 900.0
     backends = ("py",)
     n = {"quick": 0, "thorough": 0}
     shards = {"quick": 8, "thorough": 16}
@@ -219,41 +220,41 @@ class Zones(Sub):
             for day in (1, dd):
                 if T.classify_wall(T.naive_us(D.datetime(yy, mm, day)) + tod, z)[0] != "unique":
                     frag_all.append(D.date(yy, mm, day))
-        known = None
+        def day_missing(dd):
+            """the calendar day dd does not exist in the zone (a whole day skipped: Pacific/Kiritimati 1994-12-31, Pacific/Apia 2011-12-30)"""
+            k, _, g = T.classify_wall(T.naive_us(D.datetime(dd.year, dd.month, dd.day)), z)
+            return k == "skipped" and g is not None and (g[2] - g[1]) >= 86400
+
         for nm, fn, exp in plan:
+            if day_missing(exp):
+                continue        # outside the asserted domain (ASSUMPTIONS): whatever is returned or raised
             try:
                 got = fn()
             except (PendulumException, ValueError) as e:
-                if not frag_all:
-                    raise Violation(f"{nm}: raised {type(e).__name__}: {e}", value=str(x))
-                known = Known("K-C12-1", f"{nm}: raised {type(e).__name__} after a skipped/repeated midnight ({frag_all[0]}) moved an intermediate value into another month")
-                continue
+                raise Violation(f"{nm}: raised {type(e).__name__}: {e}", value=str(x), fragile_midnights=[str(f) for f in frag_all[:3]])
             req(type(got) is DateTime and got.timezone_name == z, f"{nm}: type/zone not kept", got=repr(got))
             back = T.render(T.us(got), z)
             req(T.fields(back) == T.fields(got), f"{nm}: result is not a valid local time", got=str(got))
-            if not frag_all:
+            wexp = T.naive_us(D.datetime(exp.year, exp.month, exp.day))
+            kind = T.classify_wall(wexp, z)[0]
+            if kind == "unique":
                 check_value(nm, got, exp, x)
                 continue
-            wexp = T.naive_us(D.datetime(exp.year, exp.month, exp.day))
-            if ymd(got) == ymd(exp) and (got.hour, got.minute, got.second, got.microsecond) == (0, 0, 0, 0):
-                continue
-            if T.classify_wall(wexp, z)[0] != "unique" and abs(T.naive_us(got) - wexp) <= DAY + 3600 * US:
-                continue        # target midnight itself skipped/repeated: either resolution (C12 decides which is right)
-            known = Known("K-C12-1", f"{nm}: a midnight (or wall time) the walk touches is skipped/repeated ({frag_all[0]}) and was resolved by an intermediate fold")
-        if nth > len(oc):
+            # the target day's midnight is skipped or repeated: the result is the FIRST instant of that day - the time right after the gap,
+            # or the earlier occurrence of the repeated midnight (the former known finding K-C12-1 accepted either side here)
+            want = T.expected_construct(wexp, z, 1 if kind == "skipped" else 0)[1]
+            if want is None:
+                continue        # compound transition: the model does not commit
+            req(T.us(got) == want, f"{nm}: lands on the wrong side of a {kind} midnight of the target day", got=str(got), expected=T.render(want, z).isoformat(), value=str(x))
+        if nth > len(oc) and not any(day_missing(dd) for dd in (a, b)):
             try:
                 rr = x.nth_of(unit, nth, W)
             except PendulumException:
                 pass
             except ValueError as e:
-                if not frag_all:
-                    raise Violation(f"nth_of({unit}, {nth}) raised ValueError instead of PendulumException: {e}", value=str(x))
-                known = Known("K-C12-1", "nth_of beyond the count: ValueError after a skipped/repeated midnight moved an intermediate value into another month")
+                raise Violation(f"nth_of({unit}, {nth}) raised ValueError instead of PendulumException: {e}", value=str(x))
             else:
-                if not frag_all:
-                    raise Violation(f"nth_of({unit}, {nth}) returned {rr} although the unit holds only {len(oc)} such days")
-        if known:
-            raise known
+                raise Violation(f"nth_of({unit}, {nth}) returned {rr} although the unit holds only {len(oc)} such days")
         return bool(frag_all), "fragile-midnight-in-range" if frag_all else "plain"
 
 
